@@ -232,8 +232,13 @@ def replay_native(crate, name, vals, log):
         except BuildError as e:
             out[prof] = {"rc": None, "out": str(e)}
             continue
-        p = subprocess.run([exe, name, arg], stdout=subprocess.PIPE, stderr=subprocess.STDOUT, text=True, timeout=600)
-        out[prof] = {"rc": p.returncode, "out": p.stdout[-1500:]}
+        try:
+            p = subprocess.run([exe, name, arg], stdout=subprocess.PIPE, stderr=subprocess.STDOUT, text=True, timeout=90)
+            out[prof] = {"rc": p.returncode, "out": p.stdout[-1500:]}
+        except subprocess.TimeoutExpired:
+            # a harness body is a finite computation (native replays take milliseconds): not coming back on the
+            # solver's input is a reproduced failure of its own kind (e.g. a lock taken twice on one thread)
+            out[prof] = {"rc": "hang", "out": "the native replay of the solver's input did not terminate within 90 s"}
     return out
 
 
